@@ -42,6 +42,12 @@ theorem years_shuo_fact : allRec 1024 yearShuoOK Gen.monthsChunks = true := by
   simp only [allChunks_append, months_yearShuoOK_part0, months_yearShuoOK_part1, months_yearShuoOK_part2, months_yearShuoOK_part3,
     months_len_part0, months_len_part1, months_len_part2, records_append, List.length_append, Nat.zero_add, Nat.reduceAdd, Bool.and_self]
 
+/-- TABLE FACT (C08): the lunar new year of every year 1..9999 lies within [Jan 1 − 5 d, Jan 1 + 59 d] of the same civil year. -/
+theorem years_newyear_fact : allRec 1024 yearNewYearOK Gen.monthsChunks = true := by
+  unfold allRec Gen.monthsChunks
+  simp only [allChunks_append, months_yearNewYearOK_part0, months_yearNewYearOK_part1, months_yearNewYearOK_part2, months_yearNewYearOK_part3,
+    months_len_part0, months_len_part1, months_len_part2, records_append, List.length_append, Nat.zero_add, Nat.reduceAdd, Bool.and_self]
+
 theorem yearRecs_length : yearRecs.length = 10000 := by
   unfold yearRecs Gen.monthsChunks
   simp only [records_append, List.length_append, months_len_part0, months_len_part1, months_len_part2, months_len_part3]
